@@ -39,7 +39,7 @@ CHECKS = {
         "as oracle; cases replayed into the real accessors"),
     "C03": mc(
         "Same scheme on authority / iauthority (IP-literals come out of the automaton by themselves), stand-alone and embedded "
-        "in references: user_info/host/port and parts() vs RFC 3986 section 3.2 computed by the spec, parts re-validated, reassembly.",
+        "in references: user_info/host/port and parts() vs RFC 3986 section 3.2 computed by the spec, parts re-validated, reassembly. Direction B: random authorities drawn from the character classes of section 3.2 (every allowed character next to every delimiter) are read three ways by the real code and judged by TLC with AuthParts.",
         "DESIGN.md section 6, C03", "TLA+ spec + TLC: exhaustive enumeration of valid authorities within a bound; replay"),
     "C04": mc(
         "The editor is a TLA+ state machine (spec/Editor.tla); TLC explores every text reachable within a length bound with "
@@ -51,13 +51,13 @@ CHECKS = {
     "C05": mc(
         "Setter edges of the same state graph: the spec fixes the resulting text (disambiguations R1-R3 mandatory exactly when "
         "needed); TLC checks on the spec that the three rules are sufficient (result re-parses to the intended record) and the "
-        "frame conditions; the real setters must produce a text of the (mostly singleton) admissible set. Direction B: setter calls of random long histories are judged by TLC from the implementation's own previous text.",
+        "frame conditions; the real setters must produce a text of the (mostly singleton) admissible set. Direction B: setter calls of random long histories are judged by TLC from the implementation's own previous text. The calls the repository's own tests make are recorded by the hooks compiled into the library (--cfg iref_verif) and validated by the same trace specification.",
         "DESIGN.md section 6, C05", "TLA+ spec + TLC: action-level frame/sufficiency assertions on the model; setter edges replayed"),
     "C06": mc(
         "All (base, reference) pairs of component vocabularies covering every 5.2.2 branch with dot/empty/colon segments, plus "
         "the 42 examples printed in RFC 3986 5.4 (checked by TLC against the spec). TLC checks target has a scheme, validity, "
         "restricted idempotence, and prints the admissible result set (singleton wherever the RFC fixes the text); resolved / "
-        "into_resolved / resolve, both families, must agree and lie in it; base unchanged. References beyond 512 bytes and bases with escaped dots are explicit cases; in-place resolve calls of random histories are judged by TLC (direction B).",
+        "into_resolved / resolve, both families, must agree and lie in it; base unchanged. References beyond 512 bytes and bases with escaped dots are explicit cases; in-place resolve calls of random histories are judged by TLC (direction B). The calls the repository's own tests make are recorded by the hooks compiled into the library (--cfg iref_verif) and validated by the same trace specification.",
         "DESIGN.md section 6, C06", "TLA+ spec + TLC: bounded-exhaustive pairs with the RFC 5.2 operators as oracle; replay"),
     "C07": mc(
         "Values of every comparable type composed from vocabularies built to collide (percent-encoded vs literal, dot segments, "
@@ -91,7 +91,7 @@ CHECKS = {
     "C13": mc(
         "Complete: L(U) = L(I) /\\ ASCII* for the 9 type pairs and X = X-reference with a scheme (product of derivative "
         "automata). Conversions between the four kinds on every enumerated valid reference; identical results of both families "
-        "asserted on every ASCII case of the editor, resolution and comparison models.",
+        "asserted on every ASCII case of the editor, resolution and comparison models; every URI type is compared with its IRI twin (==, cmp, hash) on all pairs of the comparison groups.",
         "DESIGN.md section 6, C13", "TLA+ spec + TLC: complete product-automaton proofs of the language facts; replay of conversions"),
     "C14": mc(
         "Every textual route out reproduces the text and every route in gives the constructor's verdict, for all 20 types, over "
@@ -109,7 +109,7 @@ CHECKS = {
     "C17": mc(
         "One macro invocation per TLC-generated literal (escape-rich alphabet + composed literals): accepted literals are compiled "
         "into statics whose text, components and equality with the run-time parse are inspected; each rejected literal must "
-        "produce a compile error attributed to its span.",
+        "produce a compile error attributed to its span. One representative of every character class (Unicode white space, BOM, range ends, non-characters, private use) is placed in every component (spec/Rare.tla).",
         "DESIGN.md section 6, C17", "TLA+ spec + TLC: TLC-generated programs (literals with verdict and components) compiled and run"),
     "C18": mc(
         "Strings around the data-URL shape; TLC proves the re-scan and stored-offset formulations agree on every accepted string "
@@ -117,7 +117,7 @@ CHECKS = {
         "DESIGN.md section 6, C18", "TLA+ spec + TLC: two formulations proved equal on the model; replay"),
     "C19": mc(
         "Component texts over a token alphabet containing every class of Unicode Table 3-7; decoded octets always, characters when "
-        "well-formed, no panic, ill-formed never equal to text.",
+        "well-formed, no panic, ill-formed never equal to text; each component is also reached through the accessors of an enclosing URI/IRI; segments of up to 1.2 MB of escapes are viewed before and after resolution (judged structurally by TLC).",
         "DESIGN.md section 6, C19", "TLA+ spec + TLC: bounded-exhaustive token strings with Pct/Utf8 spec as oracle; replay"),
     "C20": mc(
         "Byte ranges of every component computed by spec/Ranges.tla (ordered, disjoint, inside the input: checked by TLC) vs "
@@ -158,10 +158,13 @@ def main():
         "setup_cmd": "./check setup",
         "hooks": {
             "guard": "iref_verif",
-            "enable": "RUSTFLAGS='--cfg iref_verif' (set in /verif/harness/.cargo/config.toml); no source hook is "
-                      "needed so far: the public API exposes the whole abstract state",
+            "enable": "RUSTFLAGS='--cfg iref_verif' (set in /verif/harness/.cargo/config.toml for the harness, and by "
+                      "tools/vlib.py:run_suite_trace for `cargo test --workspace` of /repo with IREF_VERIF_TRACE=<file>): "
+                      "crates/core/src/verif_trace.rs records every outermost mutating call (operation, buffer before, "
+                      "argument, buffer after); the recorded calls of the repository's own tests are validated by "
+                      "spec/trace/Trace_Events.tla",
             "baseline_off_cmd": "cd /repo && cargo test --workspace --no-fail-fast --offline",
-            "source_commits": [],
+            "source_commits": ["dc5c731", "c62a6ac", "626131d"],
             "add_only": True,
         },
         "engines": [{
